@@ -56,6 +56,21 @@ func CraftedVariants() []string {
 	}
 }
 
+// CraftedRepeatVariants lists the variants of NewCraftedFile in which one data blob is named by
+// several parts WITH THE SAME (full) size and other chunks follow the repeat: files with repeated
+// content (runs of equal bytes, copies).  Perkeep's own writer produces such files whenever two
+// chunks of a file have equal content; they are legal, packable, and every chunk of them stays an
+// ordinary blob of the map.  (A separate list: CraftedVariants() is rotated by index elsewhere.)
+func CraftedRepeatVariants() []string {
+	return []string{
+		"repeat-then-more", // [A, B, A, C]
+		"repeat-adjacent",  // [A, A, B, C]
+		"repeat-run",       // [Z, Z, Z.., D, Z, E]  a short chunk (a run of zeros or random bytes) many times
+		"repeat-two",       // [A, B, A, B, C]       two chunks repeated
+		"repeat-nested",    // [bytes{A, B, A, C}, D] the repeat sits in a "bytes" schema below the file
+	}
+}
+
 // schemaJSON renders a schema blob of the given camliType ("file" or "bytes").
 func schemaJSON(camliType, name string, nonce int64, parts []CraftedPart) []byte {
 	var sb strings.Builder
@@ -95,6 +110,14 @@ func NewCraftedFile(rng *rand.Rand, variant string, shared *Blob) (CraftedFile, 
 	var chunks []Blob
 	chunk := func() Blob {
 		d := make([]byte, 150<<10+rng.Intn(250<<10))
+		rng.Read(d)
+		b := Blob{Ref: RefOf(hashes[rng.Intn(len(hashes))], d), Data: d}
+		chunks = append(chunks, b)
+		return b
+	}
+	// small is a chunk of 48-144 KiB (the repeat variants use more chunks per file)
+	small := func() Blob {
+		d := make([]byte, 48<<10+rng.Intn(96<<10))
 		rng.Read(d)
 		b := Blob{Ref: RefOf(hashes[rng.Intn(len(hashes))], d), Data: d}
 		chunks = append(chunks, b)
@@ -157,6 +180,30 @@ func NewCraftedFile(rng *rand.Rand, variant string, shared *Blob) (CraftedFile, 
 	case "repeat-full":
 		a, b := chunk(), chunk()
 		parts = []CraftedPart{full(a), full(b), full(a)}
+	case "repeat-then-more":
+		a, b, c := small(), small(), small()
+		parts = []CraftedPart{full(a), full(b), full(a), full(c)}
+	case "repeat-adjacent":
+		a, b, c := small(), small(), small()
+		parts = []CraftedPart{full(a), full(a), full(b), full(c)}
+	case "repeat-run":
+		zd := make([]byte, 4<<10+rng.Intn(28<<10))
+		if rng.Intn(2) == 0 {
+			rng.Read(zd)
+		}
+		z := Blob{Ref: RefOf(hashes[rng.Intn(len(hashes))], zd), Data: zd}
+		chunks = append(chunks, z)
+		for i, n := 0, 2+rng.Intn(5); i < n; i++ {
+			parts = append(parts, full(z))
+		}
+		parts = append(parts, full(small()), full(z), full(small()))
+	case "repeat-two":
+		a, b, c := small(), small(), small()
+		parts = []CraftedPart{full(a), full(b), full(a), full(b), full(c)}
+	case "repeat-nested":
+		a, b, c, d := small(), small(), small(), small()
+		x, sum := bytesOf([]CraftedPart{full(a), full(b), full(a), full(c)})
+		parts = []CraftedPart{{BytesRef: x.Ref, Size: sum}, full(d)}
 	case "over-claim":
 		a, b := chunk(), chunk()
 		p := full(a)
